@@ -57,6 +57,32 @@ CHECKS['C03'] = dict(
    note='one injected fault per execution; schedules sampled (seeded random), not enumerated; known findings: throwing join hangs parallel_reduce, leaked Body in deterministic reduce (DESIGN 6.6)',
    technique='PlusCal protocol model checked by TLC + fault enumeration on the real library with TLC trace validation against GroupEH',
    design='4 (C03), 6.6')
+CHECKS['C10'] = dict(
+   text='TLC model-checks HashMapRehash (mask read, bucket lock, lazy rehash of the child bucket from its parent, mask-race restart; growth 1->2 buckets, '
+        '3 threads x 3 operations: every call returns what the abstract map holds at its linearization point, no key lost / duplicated / resurrected; a model '
+        'mutant without the restart is rejected). Histories of the real concurrent_hash_map (insert/find/erase/count, accessor and const_accessor hold '
+        'intervals, element-instance destruction events; identity / constant / low-bit-colliding hash, one initial bucket so growth thresholds are crossed) under '
+        'seeded random cooperative schedules over every atomic of the map are checked by TLC for linearizability and the per-element lock rules against MapAbs.',
+   note='real-code schedules sampled (seeded random cooperative), not TLC-enumerated; the protocol model is bound to the code by the abstract histories only (no step replay)',
+   technique='PlusCal protocol model checked by TLC + TLC linearizability / lock-rule validation of recorded real histories against MapAbs',
+   design='4 (C10)')
+CHECKS['C12'] = dict(
+   text='TLC model-checks SplitList (insert-only split-ordered list, unique and multi, 3 inserters incl. equal and adjacent keys: sorted, reachable, exactly one '
+        'winner per absent key, nothing lost). Histories of the eight real container types (insert/find/count and traversals concurrent with inserts; constant / '
+        'identity / colliding hashes, 2 initial buckets so the table doubles) under seeded random cooperative schedules are validated by TLC against SetAbs: '
+        'linearizable presence, one success per absent unique key, a traversal sees everything inserted before it began, nothing twice, nothing never inserted, '
+        'ordered containers in order, final contents = successful inserts.',
+   note='real-code schedules sampled, not enumerated; skip-list level assignment is whatever the library RNG produces (no seam); the multiplicity returned by count() on multi containers concurrently with inserts is not constrained (not in the property)',
+   technique='PlusCal protocol model checked by TLC + TLC validation of recorded real histories (incl. traversals) against SetAbs',
+   design='4 (C12)')
+CHECKS['C13'] = dict(
+   text='TLC model-checks Aggregator (pending-stack CAS push, first pusher becomes handler, handler_busy hand-over, two-pass batch handler): every operation '
+        'handled exactly once, one handler at a time, no deadlock, conservation. Histories of the real concurrent_priority_queue (push/try_pop, duplicates, '
+        'monotone runs, the k-th element copy throwing) under seeded random cooperative schedules are checked by TLC for linearizability against PQAbs '
+        '(a generic linearization search: a pop returns a maximum of the contents at its point, fails only when empty, a throwing copy fails only its own push).',
+   note='real-code schedules sampled, not enumerated; known finding: a copy/move that throws inside the handler outside the guarded push wedges the queue (DESIGN 6.7)',
+   technique='PlusCal protocol model checked by TLC + TLC linearizability validation of recorded real histories against PQAbs',
+   design='4 (C13), 6.7')
 REASON_PENDING = 'check not built yet in this round (planned in DESIGN.md section 4); no verdict is claimed'
 m = {
  'version': 1,
